@@ -460,7 +460,25 @@ func checkLoadSide(t fataler, what string, info acceptInfo, v any, ct string, bo
 // checkRequest: the client side dumps v into a request in format f, the server
 // side loads it; then the response to that request's Accept header.
 func checkRequest(t fataler, f uint8, v any) (dumped bool) {
-	req := httptest.NewRequest(http.MethodPost, "/thing", nil)
+	// the request may be a reused one, or one created with a place-holder body: it then carries a body length and
+	// headers that have nothing to do with what is dumped into it. Chosen by the input, so that a case replays.
+	var placeholder io.Reader
+	h := fnv.New32a()
+	_, _ = h.Write([]byte(brief(v)))
+	_, _ = h.Write([]byte{f})
+	switch (h.Sum32() >> 5) % 4 {
+	case 1:
+		placeholder = strings.NewReader("{}")
+		stats.Class("http_request_created_with_another_body")
+	case 2:
+		placeholder = strings.NewReader(strings.Repeat("placeholder ", 400))
+		stats.Class("http_request_created_with_another_body")
+	}
+	req := httptest.NewRequest(http.MethodPost, "/thing", placeholder)
+	if placeholder != nil {
+		req.Header.Set("Content-Type", "text/plain")
+		req.Header.Set("Accept", "text/html")
+	}
 	err := dsd.DumpToHTTPRequest(req, v, f)
 	if err != nil {
 		if isMime(f) {
